@@ -181,6 +181,12 @@ func (c *LRUCache) Set(key string, value interface{}, ttl time.Duration) error {
 	// Calculate entry size (rough estimate)
 	size := estimateSize(value)
 
+	// An entry that can never fit is rejected instead of evicting
+	// everything and then spinning forever.
+	if !c.canEverFit(size) {
+		return ErrEntryTooLarge
+	}
+
 	var expiresAt time.Time
 	if ttl > 0 {
 		expiresAt = time.Now().Add(ttl)
@@ -207,7 +213,7 @@ func (c *LRUCache) Set(key string, value interface{}, ttl time.Duration) error {
 	}
 
 	// Evict if necessary
-	for c.evictList.Len() >= c.capacity || (c.maxSize > 0 && c.currentSize+size > c.maxSize) {
+	for c.evictList.Len() > 0 && (c.evictList.Len() >= c.capacity || (c.maxSize > 0 && c.currentSize+size > c.maxSize)) {
 		c.evictOldest()
 	}
 
@@ -231,6 +237,10 @@ func (c *LRUCache) SetWithTags(key string, value interface{}, ttl time.Duration,
 	}
 
 	size := estimateSize(value)
+
+	if !c.canEverFit(size) {
+		return ErrEntryTooLarge
+	}
 
 	var expiresAt time.Time
 	if ttl > 0 {
@@ -256,7 +266,7 @@ func (c *LRUCache) SetWithTags(key string, value interface{}, ttl time.Duration,
 		return nil
 	}
 
-	for c.evictList.Len() >= c.capacity || (c.maxSize > 0 && c.currentSize+size > c.maxSize) {
+	for c.evictList.Len() > 0 && (c.evictList.Len() >= c.capacity || (c.maxSize > 0 && c.currentSize+size > c.maxSize)) {
 		c.evictOldest()
 	}
 
@@ -340,6 +350,16 @@ func (c *LRUCache) Stats() Stats {
 		MaxSize:    c.maxSize,
 		EntryCount: int64(c.evictList.Len()),
 	}
+}
+
+// ErrEntryTooLarge is returned by Set and SetWithTags for an entry that can
+// never fit: the cache has no capacity, or the value is larger than maxSize.
+var ErrEntryTooLarge = fmt.Errorf("cache: entry does not fit within the configured limits")
+
+// canEverFit reports whether some amount of eviction can make room for an
+// entry of the given size.
+func (c *LRUCache) canEverFit(size int64) bool {
+	return c.capacity > 0 && (c.maxSize <= 0 || size <= c.maxSize)
 }
 
 // evictOldest removes the least recently used entry
